@@ -40,19 +40,23 @@ class Gen:
         self.rng, self.lines = rng, []
         r = rng
         self.W, self.H = r.choice(SIZES[:7])
-        self.B = r.choice([1, 2, 4, 4])
+        self.B = r.choice([1, 2, 3, 4, 4])
         self.nc = r.choice([1, 2, 2, 3])
         self.cl = {}
         self.hook = (0, 0)
         self.emit("screen %d %d %d" % (self.W, self.H, self.B))
         self.emit("cursor %d %d %d %d" % (r.randint(1, 5), r.randint(1, 5), r.randint(0, 2), r.randint(0, 2)))
+        self.nscr, self.extfail, self.hookbroken = -1, -1, False
+        if r.random() < 0.3:
+            self.emit("dfhook 1")
         for c in range(self.nc):
             self.emit("client %d" % c)
             scaled = allow_scaled and r.random() < 0.25
-            self.cl[c] = dict(sw=self.W, sh=self.H, scaled=False, know=(self.W, self.H), cs=1, cr=0, sz=0)
+            self.cl[c] = dict(sw=self.W, sh=self.H, scaled=False, know=(self.W, self.H), cs=1, cr=0, sz=0, gone=False, closed=False)
             self.setenc(c, scaled)
-            if r.random() < 0.3:
-                self.emit("setpf %d %d" % (c, r.choice([1, 2, 4])))
+            if self.B == 3 or r.random() < 0.3:
+                # RFB allows 8/16/32 bits per pixel only: a conforming client of a 24 bpp server picks its own format
+                self.emit("setpf %d %d" % (c, r.choice([0, 1, 2, 4, 4])))
             if scaled:
                 self.setscale(c, r.choice([2, 2, 3, 4]))
         for _ in range(nops):
@@ -107,7 +111,7 @@ class Gen:
             w, h = r.randint(self.W, min(64, self.W + 20)), r.randint(self.H, min(48, self.H + 12))
         else:            # same size, other depth / other buffer only
             w, h = self.W, self.H
-        b = self.B if r.random() < 0.5 else r.choice([1, 2, 4])
+        b = self.B if r.random() < 0.5 else r.choice([1, 2, 3, 4])
         if r.random() < 0.35:
             # pointer at / just outside the edge of the area to come (unscaled client's coordinates)
             c = r.randrange(self.nc)
@@ -139,6 +143,61 @@ class Gen:
         q = r.random()
         c = r.randrange(self.nc)
         d = self.cl[c]
+        if d["gone"]:
+            # the viewer is gone: only the server side acts on this connection
+            if d["closed"]:
+                if r.random() < 0.5:
+                    self.emit("reap %d" % c)
+                return
+            if r.random() < 0.25:
+                # the emitters with a viewer that is gone (their flush, or the caller's, fails)
+                kind = r.randint(0, 1)
+                n = 1 if self.nscr < 0 else self.nscr
+                lim = 32768 - (12 + 4 + 16 * n if kind else 12)
+                self.emit("emit %d %d %d" % (c, kind, max(0, r.choice([4, lim, lim + 1, 32768]))))
+                d["closed"] = True
+                return
+            self.emit("update %d" % c)
+            if r.random() < 0.5:
+                self.emit("reap %d" % c)       # bad-op while the server has not noticed
+            return
+        if q > 0.985 and self.nc > 1 and sum(1 for x in self.cl.values() if not x["gone"]) > 1:
+            # teardown: the viewer disappears (plainly, or in the middle of a SetDesktopSize)
+            if r.random() < 0.6:
+                self.emit("close %d" % c)
+            else:
+                ns = r.choice([0, 1, 3, 255])
+                self.emit("sdstrunc %d %d %d%s" % (c, r.choice([0, 1, 7] + ([8, 9, 8 + 16 * ns - 1] if ns else [])), ns,
+                                                    " 1" if r.random() < 0.4 else ""))
+                d["closed"] = True
+            d["gone"] = True
+            if r.random() < 0.6:
+                self.newfb()                    # a replacement right after
+            return
+        if q > 0.965:
+            k = r.random()
+            if k < 0.45:
+                self.nscr = r.choice([-1, 0, 1, 2, 3, 255, 255, 2047])
+                self.emit("nscr %d" % self.nscr)
+                # (a failing hook together with a count that needs the flush, >= 2047, would leave a bare
+                # FramebufferUpdate header on the wire: application misconfiguration twice over, not generated)
+                if self.extfail >= 0 and (self.nscr <= self.extfail or self.nscr > 255):
+                    self.extfail = -1
+                    self.emit("extfail -1")
+            elif k < 0.55 and 1 <= self.nscr <= 255:
+                self.extfail = r.choice([0, self.nscr - 1])
+                self.hookbroken = True
+                self.emit("extfail %d" % self.extfail)
+            elif k < 0.6 and self.extfail >= 0:
+                self.extfail = -1
+                self.emit("extfail -1")
+            else:
+                kind = r.randint(0, 1)
+                n = 1 if self.nscr < 0 else self.nscr
+                need = 12 + 4 + 16 * n if kind else 12
+                lim = 32768 - need
+                self.emit("emit %d %d %d" % (c, kind, max(0, r.choice([4, lim - 1, lim, lim + 1, 32768, r.randint(0, 32768)]))))
+            return
         if q < 0.14:
             if r.random() < 0.25:
                 x1, x2 = r.randint(-6, W + 6), r.randint(-6, W + 6)
@@ -184,16 +243,20 @@ class Gen:
             self.emit("sds %d %d %d %d" % (c, w, h, ns))
             if self.hook == (2, 0) and ns and 0 < w <= 64 and 0 < h <= 64:
                 self.resized(w, h, self.B)
-        elif q < 0.95:
+        elif q < 0.935:
             self.setenc(c)
-        elif q < 0.975:
-            self.emit("setpf %d %d" % (c, r.choice([1, 2, 4])))
+        elif q < 0.95:
+            self.emit("setpf %d %d" % (c, r.choice([0, 1, 2, 4])))
         else:
             self.setscale(c, r.choice([1, 2, 2, 3, 5, 200]))
 
     def drain(self):
         for c in range(self.nc):
             d = self.cl[c]
+            if d["gone"]:
+                self.emit("update %d" % c)
+                self.emit("reap %d" % c)
+                continue
             for _ in range(3):
                 self.emit("req %d 0 0 0 %d %d" % (c, d["sw"], d["sh"]))
                 self.emit("update %d" % c)
@@ -262,6 +325,8 @@ def parse_msgs(ob):
             out.append(dict(k="size", w=int(t[1]), h=int(t[2])))
         elif t[0] == "rsz":
             out.append(dict(k="rsz", w=int(t[1]), h=int(t[2])))
+        elif t[0] == "cmap":
+            out.append(dict(k="cmap", first=int(t[1]), n=int(t[2])))
         elif t[0] == "ext":
             out.append(dict(k="ext", r=int(t[1][2:]), s=int(t[2][2:]), w=int(t[3]), h=int(t[4]), screens=t[5]))
         elif t[0] == "fbu":
@@ -288,6 +353,8 @@ def py_oracle(script, plain, orc):
     size = None         # (W, H) the application installed
     last_state = {}
     final = {}
+    nscr, extfail, hookbroken = -1, -1, False   # the application's screen-layout hooks
+    gone = set()
     for op, ob in zip(ops, plain):
         t = op.split()
         k = t[0]
@@ -301,6 +368,26 @@ def py_oracle(script, plain, orc):
                 need_size.pop(t[1], None)
         elif k == "hook":
             hook = (int(t[1]), int(t[2]))
+        elif k == "nscr":
+            nscr = int(t[1])
+        elif k == "extfail":
+            extfail = int(t[1])
+            if extfail >= 0:
+                hookbroken = True      # the application's own hook fails: size messages may be dropped from here on
+        elif k in ("close", "sdstrunc"):
+            gone.add(t[1])
+            final.pop(t[1], None)
+            need_size.pop(t[1], None)
+            if k == "sdstrunc" and ob != "closed":
+                return "client %s survived a truncated SetDesktopSize: %s" % (t[1], ob)
+        elif k == "emit":
+            if ob.endswith("closed"):
+                final.pop(t[1], None)
+            if int(t[2]):
+                answer.pop(t[1], None)
+                other_ok.pop(t[1], None)
+        elif k == "reap":
+            final.pop(t[1], None)
         elif k == "newfb":
             size = (int(t[1]), int(t[2]))
             for c, sz in cap.items():
@@ -320,18 +407,40 @@ def py_oracle(script, plain, orc):
                         for o, sz in cap.items():
                             if sz:
                                 need_size[o] = True
-        elif k in ("update", "setscale"):
+        elif k in ("update", "setscale", "setpf"):
             c = t[1]
+            if ob == "closed":
+                if c not in gone:
+                    return "client %s was closed by the server although its viewer is alive" % c
+                final.pop(c, None)
+                continue
+            if hookbroken and k == "update":
+                need_size.pop(c, None)
+                answer.pop(c, None)
+                other_ok.pop(c, None)
             for m in parse_msgs(ob):
                 if m["k"] == "?":
                     return "undecodable message summary %r" % m["raw"]
+                if c in gone:
+                    return "client %s received %s after its viewer had gone" % (c, m["k"])
+                if m["k"] == "ext" and not hookbroken:
+                    want_n = 1 if nscr < 0 else nscr
+                    sc = m["screens"].strip("[]")
+                    got_n = int(sc.split(";")[0][2:]) if sc.startswith("n=") else (len(sc.split(";")) if sc else 0)
+                    if got_n != want_n:
+                        return "client %s: ExtendedDesktopSize lists %d screens, the application reports %d" % (c, got_n, want_n)
                 if m["k"] == "fbu" and m["pixels"] and need_size.get(c):
                     return "client %s announced resize support but received pixel data before the size message: %s" % (c, ob)
                 if m["k"] in ("size", "ext"):
                     need_size.pop(c, None)
                 if m["k"] == "size" and cap.get(c, 0) & 2:
                     return "client %s uses ExtendedDesktopSize but was sent a plain NewFBSize" % c
-                if m["k"] == "ext":
+                if m["k"] == "ext" and hookbroken:
+                    # the application's screen hook failed at some point: size messages (and with them
+                    # reason / status) may have been dropped by the library, the bookkeeping check is off
+                    answer.pop(c, None)
+                    other_ok.pop(c, None)
+                elif m["k"] == "ext":
                     if c in answer:
                         want = answer.pop(c)
                         if want is None:
@@ -353,7 +462,8 @@ def py_oracle(script, plain, orc):
             if size and (sc[0], sc[1]) != size:
                 return "screen is %dx%d but the application installed %dx%d" % (sc[0], sc[1], size[0], size[1])
             last_state[t[1]] = d
-            final[t[1]] = ob
+            if t[1] not in gone:
+                final[t[1]] = ob
     # after the final full requests every client must be idle (and `!inv` said its picture is the framebuffer)
     for c, ob in final.items():
         if not ob.startswith("M=[] C=[] "):
@@ -452,7 +562,11 @@ def run(ctx):
                 dist["idle_checks"] += 1
             if l.startswith("!"):
                 continue
-            for m in (parse_msgs(l) if (l.startswith(("size", "ext", "rsz", "fbu"))) else []):
+            if l == "closed":
+                dist["closed_by_failed_write_or_read"] = dist.get("closed_by_failed_write_or_read", 0) + 1
+            elif l.startswith("emit "):
+                dist["emit_calls"] = dist.get("emit_calls", 0) + 1
+            for m in (parse_msgs(l) if (l.startswith(("size", "ext", "rsz", "fbu", "cmap"))) else []):
                 if m["k"] == "size":
                     dist["size_msgs"] += 1; nt += 1
                 elif m["k"] == "ext":
@@ -463,6 +577,8 @@ def run(ctx):
                         dist["ext_reason_other"] += 1
                 elif m["k"] == "rsz":
                     dist["rsz_msgs"] += 1
+                elif m["k"] == "cmap":
+                    dist["cmap_msgs"] = dist.get("cmap_msgs", 0) + 1
                 elif m["k"] == "fbu":
                     dist["fbu"] += 1
         if nt >= 1 and meta["newfbs"] + meta["sds"] >= 1:
@@ -471,11 +587,11 @@ def run(ctx):
             samples.append({"script": script.splitlines()[:70], "impl": impl[:70]})
     return {
         "evaluations": len(scripts), "distinct_nontrivial": len(seen),
-        "rule": "random histories over 1..3 clients (NewFBSize / ExtendedDesktopSize / both / neither, soft or X cursor, CopyRect, own pixel format 8/16/32 bpp, scaled by 2..5) of draw/mark, multi-rectangle copies, incremental / non-incremental requests in old and new geometry (incl. out of range), updates, pointer events inside / outside the area, framebuffer replacements (grow / shrink / 1x1 / depth 8/16/32 / same size) with the old buffer freed at once, SetDesktopSize with 0..255 screens and hook absent / returning 0..7 / resizing synchronously; non-trivial = distinct script with >= 1 replacement or SetDesktopSize in which a client received >= 1 size message",
+        "rule": "random histories over 1..3 clients (NewFBSize / ExtendedDesktopSize / both / neither, soft or X cursor, CopyRect, own true-colour pixel format 8/16/32 bpp or 8-bit colour map, scaled by 2..5) of draw/mark, multi-rectangle copies, incremental / non-incremental requests in old and new geometry (incl. out of range), updates, pointer events inside / outside the area, framebuffer replacements (grow / shrink / 1x1 / depth 8/16/24/32 / same size) with the old buffer freed at once, viewers that disappear (before their next update, or inside a truncated SetDesktopSize) and are reaped, application screen-layout hooks reporting 0..2047 screens or failing, the size-message emitters at every update-buffer boundary, SetDesktopSize with 0..255 screens and hook absent / returning 0..7 / resizing synchronously; non-trivial = distinct script with >= 1 replacement or SetDesktopSize in which a client received >= 1 size message",
         "samples": samples, "distribution": dist, "failures": fails[:8],
         "partial": ["threads: rfbNewFramebuffer's locking (sendMutex of every client, cursorMutex) is not modelled; the harness is single-threaded (C13 covers the lock discipline)",
                     "encodings other than Raw / CopyRect: region arithmetic and the size short-circuit precede encoding; per-encoding pixel exactness is C01",
-                    "colour-mapped clients (non-trueColour) are not generated",
+                    "clients that keep a 24 bpp pixel format (not allowed by RFB; known C10 item) are not generated; colour-map clients are (BGR233 palette)",
                     "the contents of a scaled version are checked against a reference box filter by the harness (!ss); the filter itself is C17's theorem",
                     "rich cursor source data must be converted by the caller after a depth change (documented API requirement); the harness does so"],
         "assumptions": ["the application frees the old buffer only after rfbNewFramebuffer returned and installs a buffer of w*h*bytesPerPixel bytes",
